@@ -27,8 +27,11 @@ pub fn finish(meta: RunMeta, mut acc: Acc, min_conclusive: u64) -> i32 {
     let mut known: BTreeMap<String, (u64, String)> = BTreeMap::new();
     let mut fresh: Vec<Violation> = Vec::new();
     let mut seen = std::collections::HashSet::new();
+    // one report per (input, oracle): the first configuration that showed it
+    acc.violations.sort_by(|a, b| (a.input.len(), &a.input, a.cfg).cmp(&(b.input.len(), &b.input, b.cfg)));
+    let raw_violations = acc.violations.len();
     for v in acc.violations.drain(..) {
-        if !seen.insert(v.key()) {
+        if !seen.insert(util::hash64_parts(&[&v.input, &v.oracle, &v.extra.to_string()])) {
             continue;
         }
         match findings::classify(&db, &v) {
@@ -106,6 +109,7 @@ pub fn finish(meta: RunMeta, mut acc: Acc, min_conclusive: u64) -> i32 {
         "assumptions": meta.assumptions,
         "wall_s": wall,
         "violations": total_fresh,
+        "violating_executions_before_dedup": raw_violations,
     });
     let evdir = util::verif_dir().join("evidence");
     let _ = std::fs::create_dir_all(&evdir);
